@@ -318,6 +318,9 @@ func run(r *hx.Result, cfg hx.Config) {
 	// a kill in the middle of a log write: recovery of a torn tail, short writes, second restart
 	// (torntail.go; the tie of c03_crash_prefix)
 	runTornTail(r, cfg, rand.New(rand.NewSource(cfg.Seed^0x7011ed)))
+	// reads of the log by a running server (AOFMD5, AOF, SERVER, AOFSHRINK) between acknowledged
+	// writes: the file stays the concatenation of the records (logpos.go; Props/C03pos.v)
+	runLogPos(r, cfg, rand.New(rand.NewSource(cfg.Seed^0x10c905)))
 	n := 14
 	if cfg.Tier == "thorough" || cfg.Search {
 		n = 200
